@@ -46,7 +46,14 @@ class W(str, CombinatorialObject):
 
 
 def stat(w, letter, frompos):
-    return w[frompos:].count(letter)
+    """number of occurrences of `letter` from position `frompos` on; an upper-case letter names the *weighted* statistic that
+    counts every occurrence of the (lower-case) letter twice - a statistic whose value can exceed the size of the object"""
+    return w[frompos:].count(letter) if letter.islower() or not letter.isalpha() else 2 * w[frompos:].count(letter.lower())
+
+
+def tr_letter(letter, table):
+    """relabel the letter of a statistic (weighted statistics keep their weight)"""
+    return letter.translate(table) if letter.islower() or not letter.isalpha() else letter.lower().translate(table).upper()
 
 
 class PW(CombinatorialClass):
@@ -179,8 +186,8 @@ def child_params(c, mode, pre, shift=0, atom=False):
     newpref = cyc.get(c.params[0][0][0], "j") if c.params else "j"
     for n, l, f in c.params:
         cf = max(0, f - shift)
-        inside = pre[cf:].count(l) if cf <= len(pre) else 0
-        if "drop" in mode and (l in forbidden or atom) and inside == 0:
+        inside = pre[cf:].count(l.lower()) if cf <= len(pre) else 0
+        if "drop" in mode and (l.lower() in forbidden or atom) and inside == 0:
             continue  # identically zero on this child
         # two statistics coincide on every object of the child iff same letter and same effective start beyond/in the prefix
         key = (l, inside, cf if cf > len(pre) else None) if "merge" in mode else (n,)
@@ -482,7 +489,7 @@ class Swap(SymmetryStrategy):
             return None
         t = self._t(c)
         return (PW(c.prefix.translate(t), [p.translate(t) for p in c.patterns], c.alphabet, c.just_prefix,
-                   [(n, l.translate(t), f) for n, l, f in c.params]),)
+                   [(n, tr_letter(l, t), f) for n, l, f in c.params]),)
 
     def extra_parameters(self, c, children=None):
         return ({k: k for k in c.extra_parameters},)
@@ -529,7 +536,7 @@ class Rot(_ModeMixin, DisjointUnionStrategy):
         """(child, mapping). Mode word `canon`: the child's statistics are named canonically - the parent's names are
         re-assigned in the order of the (relabelled) letters, so the parameter map can permute names used on both sides."""
         t = self._t(c)
-        tr = [(n, l.translate(t), f) for n, l, f in c.params]
+        tr = [(n, tr_letter(l, t), f) for n, l, f in c.params]
         if "canon" in self.mode:
             order = sorted(tr, key=lambda p: (p[1], p[2], p[0]))
             names = sorted(n for n, _, _ in tr)
